@@ -3,7 +3,7 @@
 From Coq Require Import List NArith ZArith Bool Lia ZifyBool ZifyNat ZifyN.
 From Coq.Strings Require Import Byte.
 Import ListNotations.
-From BWValues Require Import Bytes BytesProofs Values Codec Uuid Io Dom CodecProofs UuidProofs RoundTrip.
+From BWValues Require Import Bytes BytesProofs Values Codec Uuid Io Dom CodecProofs UuidProofs RoundTrip SplitProofs.
 
 Ltac dm := repeat match goal with
   | |- context [match ?x with _ => _ end] => destruct x eqn:?; try discriminate
@@ -33,6 +33,65 @@ Proof.
     destruct (slice raw 2 (zlen raw)) as [ids|]; [|discriminate]. cbn [idx].
     destruct (new_id ids) as [id|]; [|discriminate].
     intros H. inversion H. reflexivity.
+Qed.
+
+(* a trimmed text ending in '>' that node.Parse accepts is exactly the printed form of the node *)
+Lemma id_ok_no_gt : forall i, id_ok i = true -> i <> [] /\ ~ In c_gt i.
+Proof.
+  intros i H. unfold id_ok in H. apply andb_true_iff in H. destruct H as [H1 H2]. split.
+  - intros E. subst i. discriminate.
+  - intros Hin. apply negb_true_iff in H1.
+    assert (X : existsb (fun c => memb c [x3c; x3e]) i = true) by (apply existsb_exists; exists c_gt; split; [exact Hin | reflexivity]).
+    congruence.
+Qed.
+
+Lemma parse_node_print : forall m n, trim_space (m ++ [c_gt]) = m ++ [c_gt] ->
+  parse_node (m ++ [c_gt]) = Ok n -> print_node n = m ++ [c_gt].
+Proof.
+  intros m n Ht. unfold parse_node. rewrite Ht.
+  remember (m ++ [c_gt]) as raw eqn:Eraw.
+  destruct raw as [|c0 rest]; [discriminate|]. rewrite at_index_0. cbn [idx].
+  remember (c0 :: rest) as raw' eqn:Eraw'.
+  assert (Hm : raw' = m ++ [c_gt]) by congruence.
+  destruct (Byte.eqb c0 c_slash).
+  - destruct (index s_lt raw') as [i|] eqn:Ei; [|discriminate].
+    apply index_single_spec in Ei. destruct Ei as [a [b [Hs [Hi Hn]]]]. subst i.
+    assert (Hsl : slice raw' 0 (Z.of_nat (length a)) = Some a) by (rewrite Hs; apply slice_prefix).
+    rewrite Hsl. cbn [idx].
+    destruct (new_type a) as [t|] eqn:Et; [|discriminate]. destruct (new_type_ok _ _ Et) as [_ E]. subst t.
+    destruct (at_index raw' (zlen raw' - 1)) as [l|]; [|discriminate]. cbn [idx].
+    destruct (negb (Byte.eqb l c_gt)); [discriminate|].
+    assert (Hb : exists b', b = b' ++ [c_gt]).
+    { destruct (@exists_last _ b) as [b' [x Hx]].
+      - intros X. subst b. rewrite Hs in Hm. change (a ++ [c_lt]) with (a ++ [c_lt]) in Hm.
+        apply app_inj_tail in Hm. destruct Hm as [_ X]. discriminate.
+      - exists b'. subst b. rewrite Hs in Hm.
+        rewrite app_comm_cons, app_assoc in Hm.
+        apply app_inj_tail in Hm. destruct Hm as [_ X]. subst x. reflexivity. }
+    destruct Hb as [b' Hb]. subst b.
+    assert (Hs2 : slice raw' (Z.of_nat (length a) + 1) (zlen raw' - 1) = Some b').
+    { rewrite Hs. replace (a ++ x3c :: b' ++ [c_gt]) with ((a ++ [x3c]) ++ b' ++ [c_gt]) by (rewrite <- app_assoc; reflexivity).
+      replace (Z.of_nat (length a) + 1)%Z with (zlen (a ++ [x3c])) by zl.
+      replace (zlen ((a ++ [x3c]) ++ b' ++ [c_gt]) - 1)%Z with (zlen (a ++ [x3c]) + zlen b')%Z by zl.
+      apply slice_app_mid. }
+    rewrite Hs2. cbn [idx].
+    destruct (new_id b') as [id|] eqn:Eid; [|discriminate]. destruct (new_id_ok _ _ Eid) as [_ E]. subst id.
+    intros H. inversion H. subst n. unfold print_node. cbn [ntype nid]. rewrite Hs.
+    cbn [app]. reflexivity.
+  - destruct (Byte.eqb c0 c_under); [|discriminate].
+    destruct (zlen raw' <? 2)%Z eqn:E2; [discriminate|].
+    destruct (slice raw' 2 (zlen raw')) as [ids|] eqn:Esl; [|discriminate]. cbn [idx].
+    destruct (new_id ids) as [id|] eqn:Eid; [|discriminate]. destruct (new_id_ok _ _ Eid) as [Hok E]. subst id.
+    exfalso. destruct (id_ok_no_gt _ Hok) as [Hne Hng].
+    apply slice_some in Esl. destruct Esl as [_ [_ [_ E]]].
+    assert (Eids : ids = skipn 2 raw').
+    { rewrite E. apply firstn_all2. rewrite skipn_length. unfold zlen. lia. }
+    rewrite Hm in Eids. rewrite skipn_app in Eids.
+    destruct (Nat.leb 2 (length m)) eqn:El.
+    + apply Nat.leb_le in El. replace (2 - length m)%nat with 0%nat in Eids by lia. cbn [skipn] in Eids.
+      apply Hng. rewrite Eids. apply in_or_app. right. left. reflexivity.
+    + apply Nat.leb_gt in El. apply Hne. rewrite Eids.
+      rewrite skipn_all2 by lia. destruct (2 - length m)%nat eqn:Ek; [lia|]. cbn [skipn app]. destruct n0; reflexivity.
 Qed.
 
 Section WithOracles.
@@ -105,31 +164,53 @@ Proof. intros s l H. apply literal_roundtrip_g. exact (parse_literal_gdom _ _ H)
 Lemma object_accept_stable : forall s o, parse_object O s = Ok o -> parse_object O (print_object O o) = Ok o.
 Proof. intros s o H. apply (object_roundtrip_g O (alaw_quote O A)). exact (parse_object_gdom _ _ H). Qed.
 
-(* triple: the components of an accepted triple are in the domain; stability needs, in addition, what the subject split
-   expression needs: no form feed in the subject type *)
+(* triple: the components of an accepted triple are in the domain, and its subject text is exactly the printed subject,
+   which (being the text before the FIRST subject split) contains no earlier split *)
 Lemma parse_triple_components : forall s t, parse_triple O s = Ok t ->
-  dom_node (subj t) = true /\ gdom_pred O (tpred t) /\ gdom_object O (tobj t).
+  dom_node (subj t) = true /\ gdom_pred O (tpred t) /\ gdom_object O (tobj t) /\ type_split_free (ntype (subj t)) = true.
 Proof.
   intros s t. unfold parse_triple, idx.
-  destruct (p_split (trim_space s)) as [[ps pe]|]; [|discriminate].
+  destruct (p_split (trim_space s)) as [[ps pe]|] eqn:Eps; [|discriminate].
   destruct (slice (trim_space s) (Z.of_nat (pe - 1) + 1) (zlen (trim_space s))) as [aq|]; [|discriminate].
   destruct (slice (trim_space s) (Z.of_nat (pe - 1 + 1 + skip_quoted aq)) (zlen (trim_space s))) as [rest|]; [|discriminate].
   destruct (o_split_from rest (pe - 1 + 1 + skip_quoted aq)) as [[os oe]|]; [|discriminate].
-  destruct (slice (trim_space s) 0 (Z.of_nat ps + 1)) as [ss|]; [|discriminate].
+  destruct (slice (trim_space s) 0 (Z.of_nat ps + 1)) as [ss|] eqn:Ess; [|discriminate].
   destruct (slice (trim_space s) (Z.of_nat pe - 1) (Z.of_nat os + 1)) as [sp|]; [|discriminate].
   destruct (slice (trim_space s) (Z.of_nat oe - 1) (zlen (trim_space s))) as [so|]; [|discriminate].
   destruct (parse_node ss) as [n| | |] eqn:En; try discriminate.
   destruct (parse_pred O sp) as [p| | |] eqn:Ep; try discriminate.
   destruct (parse_object O so) as [o| | |] eqn:Eo; try discriminate.
   intros H. inversion H. subst t. cbn [subj tpred tobj].
-  repeat split; [exact (parse_node_dom _ _ En) | exact (proj1 (parse_pred_gdom _ _ Ep)) | exact (proj2 (parse_pred_gdom _ _ Ep)) | exact (parse_object_gdom _ _ Eo)].
+  split; [exact (parse_node_dom _ _ En)|]. split; [exact (parse_pred_gdom _ _ Ep)|]. split; [exact (parse_object_gdom _ _ Eo)|].
+  (* the subject text *)
+  set (raw := trim_space s) in *.
+  unfold p_split in Eps. pose proof (find_split_bounds _ _ _ _ _ _ Eps) as [_ [Hb1 Hb2]].
+  destruct (find_split_opn _ _ _ _ _ _ Eps) as [pre [post [Hraw Hps]]]. cbn [plus] in Hps. subst ps.
+  assert (Hss : ss = pre ++ [c_gt]).
+  { apply slice_some in Ess. destruct Ess as [_ [_ [_ E]]]. subst ss. rewrite Hraw.
+    replace (Z.to_nat (Z.of_nat (length pre) + 1 - 0)) with (length (pre ++ [c_gt])) by (rewrite app_length; cbn; lia).
+    cbn [skipn Z.to_nat]. replace (pre ++ x3e :: post) with ((pre ++ [c_gt]) ++ post) by (rewrite <- app_assoc; reflexivity).
+    rewrite firstn_app, firstn_all, Nat.sub_diag. cbn [firstn]. apply app_nil_r. }
+  assert (Htrim : trim_space ss = ss).
+  { rewrite Hss. apply (trim_space_prefix_gt s pre post). fold raw. rewrite Hraw. rewrite <- app_assoc. reflexivity. }
+  rewrite Hss in Htrim, En. pose proof (parse_node_print _ _ Htrim En) as Hprint.
+  (* raw = type ++ '<' :: id ++ '>' :: post, the first split is at that '>' : none inside type ++ "<" *)
+  unfold type_split_free. destruct (find_split x3e [x22] (ntype n ++ [x3c]) 0) as [[p1 q1]|] eqn:Ef; [|reflexivity].
+  exfalso. pose proof (find_split_bounds _ _ _ _ _ _ Ef) as [_ [Hf1 Hf2]].
+  assert (Hraw2 : raw = ntype n ++ c_lt :: (nid n ++ c_gt :: post)).
+  { rewrite Hraw. replace (pre ++ x3e :: post) with ((pre ++ [c_gt]) ++ post) by (rewrite <- app_assoc; reflexivity).
+    rewrite <- Hprint. unfold print_node. rewrite <- !app_assoc. reflexivity. }
+  rewrite Hraw2 in Eps. rewrite find_split_extend in Eps by reflexivity.
+  change (ntype n ++ [c_lt]) with (ntype n ++ [x3c]) in Eps. rewrite Ef in Eps. inversion Eps as [[E1 E2]].
+  assert (Hlen : length pre = (length (ntype n) + 1 + length (nid n))%nat).
+  { assert (X : length (pre ++ [c_gt]) = length (print_node n)) by (rewrite Hprint; reflexivity).
+    unfold print_node in X. rewrite !app_length in X. cbn [length] in X. lia. }
+  rewrite app_length in Hf2. cbn [length] in Hf2. lia.
 Qed.
 
-Lemma triple_accept_stable_partial : forall s t, parse_triple O s = Ok t ->
-  memb x0c (ntype (subj t)) = false ->
-  parse_triple O (print_triple O t) = Ok t.
+Lemma triple_accept_stable : forall s t, parse_triple O s = Ok t -> parse_triple O (print_triple O t) = Ok t.
 Proof.
-  intros s t H Hff. destruct (parse_triple_components _ _ H) as [Hn [Hp Ho]].
+  intros s t H. destruct (parse_triple_components _ _ H) as [Hn [Hp [Ho Hf]]].
   apply (triple_roundtrip_g O (alaw_quote O A)). unfold gdom_triple. repeat split; try assumption; apply Hp.
 Qed.
 
